@@ -6,8 +6,8 @@ import ticc_util as tu
 from common import show_list
 
 LEVEL = "proof"
-LEAN_PROPS = ["FastTicc.Props.C09", "FastTicc.Props.C01", "FastTicc.Props.C08"]
-LEAN_HELPERS = ["FastTicc.Proofs.MainLoop"]
+LEAN_PROPS = ["FastTicc.Props.C09", "FastTicc.Props.Compose", "FastTicc.Props.C01", "FastTicc.Props.C08"]
+LEAN_HELPERS = ["FastTicc.Proofs.MainLoop", "FastTicc.Proofs.Compose"]
 RULE = ("(a) scripted label histories driven through the real fit_stacked_data (the relabel phase's output labelling is "
         "replaced by the script): converge at every round j<=limit+1, oscillate forever, limit in [1,8], labellings that "
         "empty a cluster to force repopulation; (b) traced real runs on random small data; non-trivial = at least 2 "
@@ -197,6 +197,7 @@ def run(ctx):
                  if len(ctx.samples) < 4 else None)
 
     # ---------------- (b) traced real runs
+    real_lines, real_meta = [], []
     for cfg in cfgs:
         res, tr, err, series = tu.execute(cfg)
         if err is not None:
@@ -209,7 +210,22 @@ def run(ctx):
         if tr.kernel_calls and tr.kernel_calls[-1]["labels"] != labs[-1]:
             ctx.violation("impl-violation", "returned labelling is not what the labelling step produced for the returned model",
                           cfg, {"site": "main-loop", "clause": "returns-last"})
+        # the same history through the loop model: ids of the distinct per-round labellings
+        ids, script = {}, []
+        for l in labs:
+            script.append(ids.setdefault(tuple(l), len(ids) + 1))
+        real_lines.append(f"mainloop {cfg['limit']} 0 {show_list(script)} x x")
+        real_meta.append((cfg, script, ",".join(e["phase"] for e in tr.events)))
         ctx.count("real_runs")
         ctx.count("real_converged" if len(labs) < cfg["limit"] else "real_hit_limit")
         ctx.case(("cfg", repr(sorted(cfg.items()))), nontrivial=len(labs) >= 2,
                  sample={"limit": cfg["limit"], "rounds": len(labs), "joint": cfg["joint"]} if len(ctx.samples) < 6 else None)
+
+    for (cfg, script, impl_trace), mo in zip(real_meta, ctx.driver.run(real_lines)):
+        parts = mo.split(" ")
+        # the model, fed the labellings the real run produced, must stop where the real run stopped
+        # (unless the real run's history is shorter than the limit only because it converged: same thing)
+        if parts[0] != "ok" or int(parts[1]) != len(script) or parts[3] != impl_trace or \
+                common.parse_list(parts[4]) != script:
+            ctx.violation("correspondence-break", "main-loop model vs fit_stacked_data on a real run's label history",
+                          dict(cfg, script=script, impl_trace=impl_trace, model=mo))
